@@ -179,7 +179,7 @@ def affine_case(rng, kind, variant):
 FIELD_STATS = dict(points=0, interface_points=0, worst=0.0)
 
 
-def check_fields(ctx, kind, p, exact, info, nodes, elems, wd):
+def check_fields(ctx, kind, p, exact, info, nodes, elems, wd, worst=0.0):
     """field values (second clause of the property: 'derived quantities (... field values) equal their closed-form values', observed
     at post-processor point values with the default settings, i.e. nodal smoothing ON): the gradient / curl of the exact piecewise
     linear solution at the centroids of elements next to the material interface (both sides), next to the outer boundary and
@@ -199,10 +199,17 @@ def check_fields(ctx, kind, p, exact, info, nodes, elems, wd):
         ax, ay, bx, by = a["x"], a["y"], b["x"], b["y"]
         return abs((bx - ax) * (n[1] - ay) - (by - ay) * (n[0] - ax)) < 1e-9 * (abs(bx - ax) + abs(by - ay))
     near, other = [], []
+    hmin = float("inf")
     for e in elems:
         tri = [nodes[i] for i in e[:3]]
         c = (sum(t[0] for t in tri) / 3.0, sum(t[1] for t in tri) / 3.0)
         (near if any(on_iface(t) for t in tri) else other).append(c)
+        a2 = abs((tri[1][0] - tri[0][0]) * (tri[2][1] - tri[0][1]) - (tri[2][0] - tri[0][0]) * (tri[1][1] - tri[0][1]))
+        lmax = max(math.hypot(tri[i][0] - tri[(i + 1) % 3][0], tri[i][1] - tri[(i + 1) % 3][1]) for i in range(3))
+        hmin = min(hmin, a2 / lmax)                      # smallest altitude of the mesh
+    # the nodal values are exact only to solver precision (`worst` = largest deviation of a written potential from the exact
+    # function): a field value, being a difference quotient, inherits up to a few `worst` / altitude on top of the relative tolerance
+    slack = 6.0 * worst / (hmin * u) if hmin > 0 else 0.0
     rng = vlib.Rng(ctx.seed + len(elems))
     rng.shuffle(near); rng.shuffle(other)
     cents = near[:10] + other[:6]
@@ -233,7 +240,8 @@ def check_fields(ctx, kind, p, exact, info, nodes, elems, wd):
         FIELD_STATS["points"] += 1
         FIELD_STATS["interface_points"] += 1 if k < len(near[:10]) else 0
         FIELD_STATS["worst"] = max(FIELD_STATS["worst"], errv / gmax)
-        if errv > 1e-3 * gmax:
+        FIELD_STATS["largest_precision_slack_rel"] = max(FIELD_STATS.get("largest_precision_slack_rel", 0.0), slack / gmax)
+        if errv > 1e-3 * gmax + slack:
             return ("field value %s at (%.9g,%.9g)%s: post-processor returned (%.10g, %.10g), the exact (piecewise constant) field is "
                     "(%.10g, %.10g) [default settings, smoothing on]" % (name, c[0], c[1], " in an element touching the material interface"
                                                                            if k < len(near[:10]) else "", got[0], got[1], want[0], want[1]))
@@ -262,7 +270,7 @@ def check_affine(ctx, k, p, exact, info):
         i = max(range(len(nodes)), key=lambda i: abs(nodes[i][2] - vals[i]))
         return ("node %d at (%g,%g): solver returned %.12g, the exact linear solution is %.12g (mesh of %d nodes)"
                 % (i, nodes[i][0], nodes[i][1], nodes[i][2], vals[i], len(nodes)))
-    msg = check_fields(ctx, kind, p, exact, info, nodes, elems, wd)
+    msg = check_fields(ctx, kind, p, exact, info, nodes, elems, wd, worst)
     if msg:
         return msg
     if kind == "fee" and "E" in info and info["variant"] not in ("series", "axi-series"):
